@@ -32,7 +32,7 @@ pub fn def() -> CheckDef {
 }
 
 fn piece(rng: &mut Rng, bs: u64, cursor: u64) -> u64 {
-    match rng.below(12) {
+    match rng.below(13) {
         0 => 0,
         1 => 1,
         2 => (bs - cursor % bs) % bs,          // up to the next boundary
@@ -42,6 +42,7 @@ fn piece(rng: &mut Rng, bs: u64, cursor: u64) -> u64 {
         6 => 2 * bs + 1,
         7 => 3 * bs + rng.below(bs),
         8 => 5 * bs + rng.below(3 * bs),
+        9 => (9 + rng.below(if bs > 200 { 4 } else { 16 })) * bs + rng.below(bs), // one long piece
         _ => rng.below(2 * bs + 2),
     }
 }
